@@ -65,6 +65,11 @@ class C02(Spec):
             c['stims'] = QC.rand_stims(rng, nst, max_len=6, max_trials=2)
             for st in c['stims']:
                 st['delays'] = [rng.choice([65536, 65537, 70000, 98304, 131073])]
+            if it == 0:
+                # one history with an inter-trial interval beyond 2^20 samples, fetched in one request
+                c['stims'] = c['stims'][:1]
+                c['stims'][0].update(trials=2, delays=[1048576 + rng.choice([1, 577, 100000])])
+                big = [2300000]
             N = sum((s['len'] + s['delays'][0]) * s['trials'] for s in c['stims']) + 10
             ops, left = [], N
             while left > 0:
